@@ -65,7 +65,7 @@ TIERS = {
 FOCUS = {
     "C05": dict(mc={"accept", "accept2", "restart-safe"},
                 gen={"cover_base", "cover_accept", "cover_accept2", "cover_impostor", "script_impostor", "script_quick", "script_deep", "sim_impostor", "sim_mixed"},
-                timed=False),
+                timed=True, timed_cfgs=("ChannelTime_stranger.cfg",)),
     "C07": dict(mc={"base-live", "restart-live", "restart-safe"},
                 gen={"cover_base", "script_quick", "script_deep", "sim_restart", "sim_rekey", "sim_mixed"}, timed=True),
     "C02": dict(mc={"accept"}, gen={"script_quick", "sim_restart", "sim_rekey", "sim_mixed"}, timed=True),
@@ -129,7 +129,8 @@ def run_pipeline(tier, replay_behaviours=None, pid=None):
     else:
         behs = replay_behaviours
     timed_ex = ThreadPoolExecutor(max_workers=1)
-    timed_fut = timed_ex.submit(run_timed, binp, d) if want_timed else None
+    timed_cfgs = FOCUS.get(pid, {}).get("timed_cfgs", ("ChannelTime.cfg", "ChannelTime_stranger.cfg"))
+    timed_fut = timed_ex.submit(run_timed, binp, d, timed_cfgs) if want_timed else None
     allb, bid = {}, 0
     p = os.path.join(d, "beh.ndjson")
     with open(p, "w") as f:
@@ -189,13 +190,19 @@ def run_pipeline(tier, replay_behaviours=None, pid=None):
     return stats, violations
 
 
-def run_timed(binp, d):
-    """ChannelTime.tla: model-check the timed abstraction, take its cases, run them on real channels."""
-    res = core.tlc("ChannelTime", "ChannelTime.cfg", workers=1, timeout=600, label="mc-time", short=True)
-    core.tlc_ok_or_inconclusive(res, "MC ChannelTime")
-    cases = [x[1] for x in res.printed("CASE")]
-    if not cases:
-        raise core.Inconclusive("ChannelTime produced no cases")
+def run_timed(binp, d, cfgs=("ChannelTime.cfg", "ChannelTime_stranger.cfg")):
+    """ChannelTime.tla: model-check the timed abstraction, take its cases, run them on real channels.
+    ChannelTime.cfg: steady traffic (keep-alive / rekey / reject by time); ChannelTime_stranger.cfg: traffic, then
+    silence until every session has expired, then the same peer resumes (C07) or another key takes its place (C05)."""
+    cases, nstates = [], 0
+    for cfg in cfgs:
+        res = core.tlc("ChannelTime", cfg, workers=1, timeout=600, label="mc-time", short=True)
+        core.tlc_ok_or_inconclusive(res, "MC ChannelTime " + cfg)
+        cs = [x[1] for x in res.printed("CASE")]
+        if not cs:
+            raise core.Inconclusive("ChannelTime %s produced no cases" % cfg)
+        cases += cs
+        nstates += res.distinct
     p = os.path.join(d, "timed_cases.ndjson")
     with open(p, "w") as f:
         for i, c in enumerate(cases):
@@ -211,12 +218,15 @@ def run_timed(binp, d):
         ev = json.loads(lines[lineno - 1])
         for op in ops:
             pid = classify(op) or "C07"
-            key = "%s:%s:timed/%s" % (pid, op, ev["pat"])
-            what = "%s false on real channels in timed scenario K=%d R=%d J=%d ticks, pattern %s: hellos=%d (model bound %d), sends failed %d of %d, dups %d" % (
-                op, ev["K"], ev["R"], ev["J"], ev["pat"], ev["hellos"], ev["maxhellos"], ev["sendfail"], ev["sends"], ev["dups"])
+            key = "%s:%s:timed/%s%s" % (pid, op, ev["pat"], "" if ev.get("post", "none") == "none" else "+" + ev["post"])
+            what = "%s false on real channels in timed scenario K=%d R=%d J=%d ticks, pattern %s, then %s: hellos=%d (model bound %d), sends failed %d of %d, dups %d; after total expiry: resumed sends failed %d of %d, payloads handed to a stranger key %d, accepted from it %d, RemoteKey changed %s" % (
+                op, ev["K"], ev["R"], ev["J"], ev["pat"], ev.get("post", "none"), ev["hellos"], ev["maxhellos"], ev["sendfail"], ev["sends"], ev["dups"],
+                ev.get("resume_fail", 0), ev.get("resume_sends", 0), ev.get("to_stranger", 0), ev.get("from_stranger", 0), ev.get("rk_changed", False))
             violations.append((pid, key, what, dict(timed_case=ev, operator=op)))
     evs = [json.loads(l) for l in lines]
-    return dict(stats=dict(cases=len(cases), model_states=res.distinct, max_stall_ms=max(e["stall_ms"] for e in evs),
+    return dict(stats=dict(cases=len(cases), model_states=nstates, after_expiry=dict(
+                               stranger_cases=sum(1 for e in evs if e.get("post") == "stranger"), resume_cases=sum(1 for e in evs if e.get("post") == "resume"),
+                               resume_sends=sum(e.get("resume_sends", 0) for e in evs), stranger_sends_ok=sum(e.get("stranger_sent", 0) for e in evs)), max_stall_ms=max(e["stall_ms"] for e in evs),
                            sends=sum(e["sends"] for e in evs), replayed_old_ciphertexts=sum(e["replayed"] for e in evs)),
                 violations=violations)
 
